@@ -327,4 +327,139 @@ def logCollectAsm (rs : RawSlice) : Log := logCollect (recordSites rs)
 def stamp (rs : RawSlice) : RawSlice :=
   { rs with svcs := rs.svcs.map fun r => { r with svc := inferSite r } }
 
+/-! ### value objects: what a caller may do with the objects a slice hands out (seeded C11-r6-1)
+
+`readsFresh` (Generated/Authz.lean, a behavioural probe on a real topology) says whether a read parses the stored text
+into an object of its own; the `fresh = false` reading (a parse memo keyed by the text) is kept for the counterexample. -/
+
+namespace VObj
+
+/-- the caller's view of the value objects of a slice: element `i` *stores* a property text (`stored[i]`, the value the text
+denotes; `none` = unset); reading it (`element.capacities`, `get_sliver().capacities`) parses the text into an object the
+caller holds by handle and may change in place; writing (`element.capacities = obj`, `set_property`) serialises the
+object's value at that moment. `memo`: a parse memo (value of the text ↦ handle), consulted only when reads are not fresh. -/
+structure St (α : Type) where
+  stored : List (Option α)
+  heap : List α
+  memo : List (α × Nat)
+
+inductive Op (α : Type) where
+  | read (i : Nat)
+  | new (v : α)
+  | poke (h : Nat) (v : α)
+  | write (i h : Nat)
+  | unset (i : Nat)
+
+def Op.writes {α} : Op α → Option Nat
+  | .write i _ => some i
+  | .unset i => some i
+  | _ => none
+
+variable {α : Type} [DecidableEq α]
+
+def lookup (m : List (α × Nat)) (v : α) : Option Nat := (m.find? (·.1 = v)).map (·.2)
+
+def step (fresh : Bool) (st : St α) : Op α → St α
+  | .read i =>
+    match st.stored[i]? with
+    | some (some v) =>
+      if fresh then { st with heap := st.heap ++ [v] }
+      else match lookup st.memo v with
+        | some _ => st
+        | none => { st with heap := st.heap ++ [v], memo := (v, st.heap.length) :: st.memo }
+    | _ => st
+  | .new v => { st with heap := st.heap ++ [v] }
+  | .poke h v => { st with heap := st.heap.set h v }
+  | .write i h =>
+    match st.heap[h]? with
+    | some v => { st with stored := st.stored.set i (some v) }
+    | none => st
+  | .unset i => { st with stored := st.stored.set i none }
+
+def run (fresh : Bool) (st : St α) (ops : List (Op α)) : St α := ops.foldl (step fresh) st
+
+/-- what a collector reads of element `i` (it reads like everybody else: through the parse) -/
+def presented (fresh : Bool) (st : St α) (i : Nat) : Option α :=
+  match st.stored[i]? with
+  | some (some v) =>
+    if fresh then some v
+    else match lookup st.memo v with
+      | some h => st.heap[h]?
+      | none => some v
+  | _ => none
+
+def storedAt (st : St α) (i : Nat) : Option α := (st.stored[i]?).join
+
+theorem presented_fresh (st : St α) (i : Nat) : presented true st i = storedAt st i := by
+  unfold presented storedAt
+  cases h : st.stored[i]? with
+  | none => simp
+  | some o => cases o <;> simp
+
+theorem step_frame (fresh : Bool) (st : St α) (op : Op α) (j : Nat) (h : op.writes ≠ some j) :
+    (step fresh st op).stored[j]? = st.stored[j]? := by
+  cases op with
+  | read i =>
+    simp only [step]
+    split
+    · split
+      · rfl
+      · split <;> rfl
+    · rfl
+  | new v => rfl
+  | poke h v => rfl
+  | write i hd =>
+    simp only [step]
+    have hij : i ≠ j := by intro e; apply h; simp [Op.writes, e]
+    split
+    · simp [List.getElem?_set_ne hij]
+    · rfl
+  | unset i =>
+    simp only [step]
+    have hij : i ≠ j := by intro e; apply h; simp [Op.writes, e]
+    simp [List.getElem?_set_ne hij]
+
+theorem run_frame (fresh : Bool) (ops : List (Op α)) (st : St α) (j : Nat) (h : ∀ op ∈ ops, op.writes ≠ some j) :
+    (run fresh st ops).stored[j]? = st.stored[j]? := by
+  induction ops generalizing st with
+  | nil => rfl
+  | cons op ops ih =>
+    simp only [run, List.foldl_cons]
+    have := ih (step fresh st op) (fun o ho => h o (List.mem_cons_of_mem _ ho))
+    simp only [run] at this
+    rw [this, step_frame fresh st op j (h op List.mem_cons_self)]
+
+theorem run_no_write (fresh : Bool) (ops : List (Op α)) (st : St α) (h : ∀ op ∈ ops, op.writes = none) :
+    (run fresh st ops).stored = st.stored := by
+  apply List.ext_getElem?
+  intro j
+  exact run_frame fresh ops st j (fun o ho => by rw [h o ho]; simp)
+
+/-- read - change in place - write back on element `i` (any other reads, new objects and pokes of OTHER handles in between
+are covered by `run_frame`) -/
+theorem rmw (st : St α) (i : Nat) (v0 v : α) (hi : st.stored[i]? = some (some v0)) :
+    storedAt (run true st [.read i, .poke st.heap.length v, .write i st.heap.length]) i = some v := by
+  have hlt : i < st.stored.length := by
+    rcases Nat.lt_or_ge i st.stored.length with h | h
+    · exact h
+    · rw [List.getElem?_eq_none h] at hi; cases hi
+  have h1 : step true st (.read i) = { st with heap := st.heap ++ [v0] } := by
+    simp only [step, hi]; rfl
+  simp only [run, List.foldl_cons, List.foldl_nil, h1]
+  simp [step, storedAt, hlt]
+
+end VObj
+
+/-- the nodes of a slice with the sizes their elements present to a reader (node `i` is element `i`) -/
+def withCaps (fresh : Bool) (ns : List NodeS) (st : VObj.St Caps) : List NodeS :=
+  ns.mapIdx fun i n => { n with caps := VObj.presented fresh st i }
+
+/-- the services of a slice with the bandwidths their elements present -/
+def withBw (fresh : Bool) (ss : List SvcS) (st : VObj.St Int) : List SvcS :=
+  ss.mapIdx fun i s => { s with bw := VObj.presented fresh st i }
+
+/-- the slice a collector is presented with when the sizes / bandwidths are read off the live elements -/
+def liveSlice (fresh : Bool) (sl : Slice) (sizes : VObj.St Caps) (bws : VObj.St Int) : Slice :=
+  { sl with nodes := withCaps fresh sl.nodes sizes, svcs := withBw fresh sl.svcs bws }
+
 end FimVerif.Authz
